@@ -26,7 +26,8 @@ THEOREMS = [f'Gnpy.Spectrum.{t}' for t in (
     'attDb_dbm', 'gainDb_dbm', 'gsnr_harmonic', 'nsr_split', 'nsr_eq_inv_gsnr', 'gsnr_no_ase', 'gsnr_no_nli',
     'gsnr_harmonic_db', 'snrSum_lin', 'updateSnr_harmonic', 'demux_mem', 'demux_sublist', 'mux_spec', 'mux_sorted',
     'split_merge_perm', 'split_merge_power', 'mux_power', 'demux_mux_inv', 'multiband_mem', 'multiband_inv',
-    'snrAdded_lin', 'updateSnr_lin', 'updateSnr_le', 'applyElems_inv')]
+    'snrAdded_lin', 'updateSnr_lin', 'updateSnr_le', 'applyElems_inv', 'update_raw', 'update_history_free', 'updates_snoc',
+    'updates_raw', 'updates_last', 'updates_harmonic', 'update_01nm')]
 RULE = ('cases from one PRNG: (a) "ops": a SpectralInformation built by the real constructor (1-40 channels, quick; up to '
         '200 thorough; mixed baud/slot, -30..+10 dBm, arbitrary initial shares) taken through a random sequence of '
         'stages, a stage being either 1-6 mutating calls (attenuation/gain lin or dB, add_ase, add_nli; scalar or '
@@ -34,9 +35,14 @@ RULE = ('cases from one PRNG: (a) "ops": a SpectralInformation built by the real
         'muxed_spectral_information; (b) "path": request.propagate on a designed network (shipped examples edfa, mesh, '
         'fused, multiband, raman[, openroadm in thorough]; generated ROADM chains with 1-3 spans per hop, fused splices, all '
         'stock amplifier varieties, Raman fibres) with a uniform grid or a mixed-rate carrier list; (c) "shuffle": the '
-        'elements of such a path applied in random order to a random spectrum; (d) malformed: empty merge (ValueError), '
+        'elements of such a path applied in random order to a random spectrum; (e) "trxseq": a Transceiver fed one spectrum '
+        'and then 2-4 update_snr calls with different contribution lists (scalars, per-channel arrays, None); (f) "automode": '
+        'propagate_and_optimize_mode (trx_mode None) on a library whose transceiver has 2-4 modes of one baud rate, the '
+        'first 1..all of them infeasible, different tx_osnr / offsets per mode, so that update_snr is called several times '
+        'on the same receiver between propagations; (d) malformed: empty merge (ValueError), '
         'amplifier called with no channel in its band (ValueError). Non-trivial: at least one add_ase or add_nli was executed '
-        'on >= 1 channel (a) / the path contains >= 1 fibre and >= 1 amplifier (b, c); distinct = canonical JSON of the case')
+        'on >= 1 channel (a) / the path contains >= 1 fibre and >= 1 amplifier (b, c) / >= 2 update_snr calls hit one receiver '
+        'between two propagations (e, f); distinct = canonical JSON of the case')
 MODEL_SCOPE = ('modelled: SpectralInformation.add_ase/add_nli/apply_attenuation_lin/_db/apply_gain_lin/_db, signal/ase/nli, '
                'snr_lin/snr_nli/gsnr and dB views, select_channels/demuxed/muxed_spectral_information and __add__ (power '
                'bookkeeping; rejections are C07), op lists of Fused/Roadm/Fiber/RamanFiber/Edfa.propagate and '
@@ -53,13 +59,67 @@ TRUSTED = ['the op list of an element call is observed by wrapping the six mutat
 
 def gen(rng, tier, widen=False):
     k = rng.random()
-    if k < 0.58:
+    if k < 0.50:
         return gen_ops(rng, tier, widen)
-    if k < 0.84:
+    if k < 0.58:
+        return gen_trxseq(rng, tier)
+    if k < 0.80:
         return gen_path(rng, tier, widen)
-    if k < 0.93:
+    if k < 0.87:
+        return gen_automode(rng, tier)
+    if k < 0.94:
         return gen_path(rng, tier, widen, shuffle=True)
     return gen_malformed(rng)
+
+
+def gen_trxseq(rng, tier):
+    """a receiver driven directly: one spectrum, then 2-4 update_snr calls with different contribution lists"""
+    nch = rng.choice([1, 2, 5, 12])
+    car = S.gen_carriers(rng, [(191_000_000_000_000, 196_000_000_000_000)], nch)
+    chans = []
+    for c in car:
+        a = 10 ** -rng.uniform(1, 4)
+        n = rng.choice([0.0, 10 ** -rng.uniform(1, 4)])
+        chans.append({'f': c['f'], 'baud': c['baud'], 'slot': c['slot'], 'p': c['tx_power'], 's': 1.0 - a - n, 'a': a, 'n': n})
+    calls = []
+    for _ in range(rng.randint(2, 4)):
+        args = []
+        for _ in range(rng.randint(1, 4)):
+            kind = rng.random()
+            if kind < 0.15:
+                args.append(None)
+            elif kind < 0.6:
+                args.append(rng.choice([40.0, 35.0, 45.0, 38.0, round(rng.uniform(25, 55), 2)]))
+            else:
+                args.append([round(rng.uniform(25, 55), 2) for _ in chans])
+        if all(a is None for a in args):
+            args.append(40.0)
+        calls.append(args)
+    return {'kind': 'trxseq', 'chans': chans, 'calls': calls}
+
+
+def gen_automode(rng, tier):
+    """automatic mode selection on a library whose transceiver has 2-4 modes of ONE baud rate, the first k of which
+    cannot be met: propagate_and_optimize_mode calls update_snr once per explored mode on the same receiver"""
+    nm = rng.choice([2, 3, 4])
+    nfail = rng.randint(1, nm)          # nfail == nm: no feasible mode at all
+    baud = rng.choice([32_000_000_000, 44_000_000_000, 66_000_000_000])
+    modes = []
+    for i in range(nm):
+        modes.append({'format': f'm{i}', 'baud_rate': float(baud), 'OSNR': 70.0 if i < nfail else rng.choice([5.0, 9.0, 11.0]),
+                      'bit_rate': float((nm - i) * 100_000_000_000), 'roll_off': 0.15,
+                      'tx_osnr': rng.choice([40.0, 36.0, 45.0, 33.5, 100.0]), 'min_spacing': 37_500_000_000.0, 'cost': 1,
+                      'penalties': {}, 'equalization_offset_db': rng.choice([0, 0, 0, 1.5])})
+    if rng.random() < 0.5:
+        net = {'desc': S.gen_topology(rng, max_roadms=3)}
+        n = len(net['desc']['roadms'])
+        a, b = rng.sample(range(n), 2)
+        src, dst = f'trx {a}', f'trx {b}'
+    else:
+        net, src, dst = rng.choice(['mesh', 'mesh', 'edfa']), None, None
+    return {'kind': 'automode', 'net': net, 'src': src, 'dst': dst, 'pick': [rng.random(), rng.random()], 'modes': modes,
+            'spacing': float(rng.choice([75_000_000_000, 100_000_000_000, 87_500_000_000])), 'nfail': nfail,
+            'nchan_band': rng.choice([4, 10, 20])}
 
 
 def _shares(rng):
@@ -285,7 +345,8 @@ def compare_views(res, si, model, tag):
 # ---------------------------------------------------------------------------------------------------------------------
 
 def run(case, drv):
-    return {'ops': run_ops, 'path': run_path, 'shuffle': run_path, 'malformed': run_malformed}[case['kind']](case, drv)
+    return {'ops': run_ops, 'path': run_path, 'shuffle': run_path, 'malformed': run_malformed, 'trxseq': run_trxseq,
+            'automode': run_automode}[case['kind']](case, drv)
 
 
 def _mk_si(chans):
@@ -450,6 +511,7 @@ def run_path(case, drv):
             res.stats['nli_not_below_pch'] += 1
         if kind in ('addNli', 'addAse') and np.any(arg < 0):
             res.fail(f'negative-noise: {kind} in {uid} was given a negative power')
+    check_update_calls(res, drv, rec.update_snr_calls)
     # Transceiver figures
     rx = path[-1]
     last = rec.calls[-1].after
@@ -482,10 +544,116 @@ def run_path(case, drv):
     res.nontrivial = ('Fiber' in kinds or 'RamanFiber' in kinds) and ('Edfa' in kinds or 'Multiband_amplifier' in kinds)
     res.stats.update({f'{case["kind"]}_cases': 1, 'path_elements': len(rec.calls), 'path_channels': nchan,
                       'path_addNli_calls': nli_guard, 'op_calls_monitored': len(rec.op_events),
-                      f'net_{case["net"] if isinstance(case["net"], str) else "generated"}': 1,
+                      f'net_{case["net"] if isinstance(case["net"], str) else ("mbchain" if "mbhops" in case["net"] else "generated")}': 1,
                       'sim_' + str(case['sim']): 1})
     for k in set(kinds):
         res.stats[f'elem_{k}'] += kinds.count(k)
+    return res
+
+
+def check_update_calls(res, drv, events):
+    """every recorded Transceiver.update_snr call: correspondence with the history-free model (`TrxFig.updates` on the
+    figures of the spectrum that last reached this receiver) and the monitor 1/GSNR = 1/OSNR_ASE + 1/SNR_NLI on the
+    reported figures (signal bandwidth and 0.1 nm) after EVERY call"""
+    groups = {}
+    for ev in events:
+        if ev['state'] is None:
+            continue
+        groups.setdefault((ev['uid'], ev['call_index']), []).append(ev)
+    maxlen = 0
+    for (uid, _), evs in groups.items():
+        st = evs[0]['state']
+        n = len(st['freq'])
+        maxlen = max(maxlen, len(evs))
+        per_ch_calls = [[[f2b(float(np.broadcast_to(a, (n,))[i])) for a in ev['args'] if a is not None] for ev in evs]
+                        for i in range(n)]
+        ans = drv.ask('c01.trxseq', chans=[_chan_bits(st, i) for i in range(n)], baud=[f2b(x) for x in st['baud']],
+                      calls=per_ch_calls)
+        for k, ev in enumerate(evs):
+            rows = [[b2f(x) for x in ans[i][k + 1]] for i in range(n)]
+            for j, nm in enumerate(S.TRX_FIGS):
+                res.cmp_floats(f'Transceiver.update_snr.{nm}', ev['figs'][nm], [r[j] for r in rows], abs_=1e-9,
+                               uid=uid, call=k + 1)
+            f = ev['figs']
+            with np.errstate(divide='ignore', invalid='ignore', over='ignore'):
+                shift = 10 * np.log10(12.5e9 / st['baud'])
+                for tag, g_db, o_db, n_db in (('', f['snr'], f['osnr_ase'], f['osnr_nli']),
+                                              ('_01nm', f['snr_01nm'], f['osnr_ase_01nm'], f['osnr_nli'] - shift)):
+                    g, o, nl = 10 ** (-g_db / 10), 10 ** (-o_db / 10), 10 ** (-n_db / 10)
+                    bad = np.nonzero(~(np.abs(g - (o + nl)) <= 1e-9 * g))[0]
+                    if len(bad):
+                        i = int(bad[0])
+                        res.fail(f'harmonic-trx: receiver {uid!r}, after update_snr call {k + 1} of {len(evs)} without a new '
+                                 f'propagation, channel {i}: 1/snr{tag} = {g[i]!r} but 1/osnr_ase{tag} + 1/osnr_nli{tag} = '
+                                 f'{o[i] + nl[i]!r}', call=k + 1)
+                        break
+    res.stats['update_snr_calls_checked'] += len(events)
+    res.stats[f'update_snr_max_calls_per_propagation_{min(maxlen, 4)}'] += 1
+    return maxlen
+
+
+def run_trxseq(case, drv):
+    from gnpy.core.elements import Transceiver
+    res = Result()
+    si = _mk_si(case['chans'])
+    rx = Transceiver(uid='rx', metadata=nets.loc())
+    with S.Recorder(keep_op_events=False) as rec:
+        rx(si)
+        for args in case['calls']:
+            rx.update_snr(*[None if a is None else (np.array(a, dtype=float) if isinstance(a, list) else a) for a in args])
+    m = check_update_calls(res, drv, rec.update_snr_calls)
+    res.nontrivial = m >= 2
+    res.stats.update({'trxseq_cases': 1, 'trxseq_calls': len(case['calls'])})
+    return res
+
+
+def run_automode(case, drv):
+    from gnpy.topology.request import propagate_and_optimize_mode, compute_constrained_path
+    from gnpy.tools.json_io import requests_from_json
+    res = Result()
+    if isinstance(case['net'], str):
+        eq, net, trx = S.example(case['net'])
+        a = int(case['pick'][0] * len(trx))
+        b = int(case['pick'][1] * (len(trx) - 1))
+        if b >= a:
+            b += 1
+        src, dst = trx[a], trx[b]
+    else:
+        eq, net = S.designed_from_desc(case['net']['desc'])
+        src, dst = case['src'], case['dst']
+    eq = copy.deepcopy(eq)
+    tr = eq['Transceiver']['Voyager']
+    tr.mode = copy.deepcopy(case['modes'])
+    # a narrow request band keeps the comb small
+    tr.frequency = {'min': 193_000_000_000_000.0, 'max': 193_000_000_000_000.0 + (case['nchan_band'] + 0.6) * case['spacing']}
+
+    def mk_req(s, d):
+        data = {'path-request': [{'request-id': 'r', 'source': s, 'destination': d, 'src-tp-id': s, 'dst-tp-id': d,
+                                  'bidirectional': False,
+                                  'path-constraints': {'te-bandwidth': {'technology': 'flexi-grid', 'trx_type': 'Voyager',
+                                                                        'trx_mode': None, 'spacing': case['spacing'],
+                                                                        'path_bandwidth': 100e9}}}]}
+        r = requests_from_json(data, eq)[0]
+        r.nodes_list, r.loose_list = [d], ['STRICT']
+        return r
+    req = mk_req(src, dst)
+    path = compute_constrained_path(net, req)
+    if not path:
+        req = mk_req(dst, src)
+        path = compute_constrained_path(net, req)
+    with S.Recorder(keep_op_events=False) as rec:
+        _, mode = propagate_and_optimize_mode(path, req, eq)
+    for call in rec.calls:
+        if call.after is not None:
+            monitor_state(res, call.after, f'{call.kind} {call.uid!r}')
+    rx_events = [ev for ev in rec.update_snr_calls if ev['uid'] == path[-1].uid]
+    m = check_update_calls(res, drv, rec.update_snr_calls)
+    explored = len(rx_events)
+    res.nontrivial = m >= 2
+    res.stats.update({'automode_cases': 1, 'automode_modes_explored': explored,
+                      'automode_selected_' + ('none' if mode is None else 'some'): 1,
+                      f'automode_blocking_{getattr(req, "blocking_reason", None)}': 1,
+                      f'net_{case["net"] if isinstance(case["net"], str) else ("mbchain" if "mbhops" in case["net"] else "generated")}': 1})
     return res
 
 
@@ -555,7 +723,7 @@ def shrink_candidates(case):
             c = copy.deepcopy(case)
             c['nch'] = max(1, case['nch'] // 2)
             yield c
-        if not isinstance(case['net'], str):
+        if not isinstance(case['net'], str) and 'desc' in case['net']:
             d = case['net']['desc']
             for h in range(len(d['hops'])):
                 if len(d['hops'][h]) > 1:
